@@ -55,7 +55,7 @@ func init() {
 	}
 	Specs["C08"] = &Spec{
 		Jobs: jobsBy(quick, thorough),
-		MustReach: []string{"c08-lf-short-header", "c08-lf-invalid-length", "c08-lf-truncated", "c08-lf-complete",
+		MustReach: []string{"c08-fresh-after-reject", "c08-lf-short-header", "c08-lf-invalid-length", "c08-lf-truncated", "c08-lf-complete",
 			"c08-varint-bad-header", "c08-varint-oversized", "c08-varint-truncated", "c08-varint-complete",
 			"c08-delim-missing", "c08-delim-complete", "c08-fixed-truncated", "c08-fixed-complete", "c08-variable-eos", "c08-variable-done"},
 		Bounds: map[string]string{
